@@ -133,8 +133,8 @@ def tlc(module, cfg, metadir, env=None, workers=1, timeout=600, java_opts=None, 
     e = dict(os.environ)
     if env:
         e.update(env)
-    if java_opts:
-        e["JAVA_TOOL_OPTIONS"] = java_opts
+    # bound the JVM heap explicitly: the default (a quarter of the RAM per JVM) times 16 parallel TLCs gets killed
+    e["JAVA_TOOL_OPTIONS"] = ((java_opts + " ") if java_opts else "") + "-Xmx" + xmx
     shutil.rmtree(metadir, ignore_errors=True)
     cmd = ["timeout", str(timeout), "java", "-Xmx" + xmx, "-XX:+UseParallelGC", "-cp",
            "/opt/veriftools/tla/tla2tools.jar:/opt/veriftools/tla/CommunityModules-deps.jar",
@@ -269,6 +269,7 @@ def _tlc_trace(trace_file, cfg, metadir, timeout=900):
 
 
 MAX_REJECT_PER_FILE = 4
+MAX_EVENTS_PER_TLC = 250000
 
 
 def validate_file(trace_file, wd):
@@ -290,35 +291,42 @@ def validate_file(trace_file, wd):
     lines = good
     res = {"accepted": 0, "rejected": [], "states": 0, "generated": 0, "events": len(lines)}
     base = os.path.basename(trace_file)
-    cur = lines
+    # big files are validated in chunks of whole runs (bounded memory and time per TLC process)
+    chunks, start = [], 0
+    for (s0, e0) in split_runs(lines):
+        if e0 - start > MAX_EVENTS_PER_TLC and s0 > start:
+            chunks.append(lines[start:s0])
+            start = s0
+    chunks.append(lines[start:])
     it = 0
-    while cur:
-        it += 1
-        part = os.path.join(wd, base + ".part%d" % it)
-        with open(part, "w") as f:
-            f.write("\n".join(cur) + "\n")
-        consumed, n, _, r = _tlc_trace(part, os.path.join(SPEC, "MQAbsTrace.cfg"),
-                                       os.path.join(wd, base + ".tlc%d" % it))
-        res["states"] += r["distinct"]
-        res["generated"] += r["generated"]
-        runs = split_runs(cur)
-        os.remove(part)
-        if consumed >= n:
-            res["accepted"] += len(runs)
-            break
-        # the run containing the first unmatched line (index consumed, 0-based) is rejected
-        bad = None
-        for (s, e) in runs:
-            if s <= consumed < e:
-                bad = (s, e)
+    for cur in chunks:
+        while cur and len(res["rejected"]) < MAX_REJECT_PER_FILE:
+            it += 1
+            part = os.path.join(wd, base + ".part%d" % it)
+            with open(part, "w") as f:
+                f.write("\n".join(cur) + "\n")
+            consumed, n, _, r = _tlc_trace(part, os.path.join(SPEC, "MQAbsTrace.cfg"),
+                                           os.path.join(wd, base + ".tlc%d" % it))
+            res["states"] += r["distinct"]
+            res["generated"] += r["generated"]
+            runs = split_runs(cur)
+            os.remove(part)
+            if consumed >= n:
+                res["accepted"] += len(runs)
                 break
-        if bad is None:
-            raise ToolError("cannot locate rejected run at line %d of %s" % (consumed, part))
-        res["accepted"] += len([1 for (s, e) in runs if e <= bad[0]])
-        res["rejected"].append({"lines": cur[bad[0]:bad[1]], "at": consumed - bad[0]})
-        cur = cur[bad[1]:]
+            # the run containing the first unmatched line (index consumed, 0-based) is rejected
+            bad = None
+            for (s, e) in runs:
+                if s <= consumed < e:
+                    bad = (s, e)
+                    break
+            if bad is None:
+                raise ToolError("cannot locate rejected run at line %d of %s" % (consumed, part))
+            res["accepted"] += len([1 for (s, e) in runs if e <= bad[0]])
+            res["rejected"].append({"lines": cur[bad[0]:bad[1]], "at": consumed - bad[0]})
+            cur = cur[bad[1]:]
         if len(res["rejected"]) >= MAX_REJECT_PER_FILE:
-            res["unchecked_after_rejections"] = len(split_runs(cur))
+            res["unchecked_after_rejections"] = True
             break
     return res
 
